@@ -120,6 +120,26 @@ def check(repo: Repo, rep: Report) -> None:
     over = [c.name for c in hs.children if c.is_func and c.name.startswith(("schedule", "start", "advance", "sleep", "add"))]
     rep.ob("O3-duetime-unchanged", hs, "HistoricalScheduler inherits scheduling unchanged", not over,
            f"HistoricalScheduler overrides {over} (not analysed here)")
+    # add(absolute, relative): the absolute operand (the clock) comes first; a relative request is due at clock + duetime
+    vc_ = repo.fn(V, "VirtualTimeScheduler")
+    addf = vc_.child("add")
+    n_add = 0
+    for m_ in vc_.children:
+        if not m_.is_func:
+            continue
+        for s_ in sites(m_):
+            if isinstance(s_.node, ast.Call) and dotted(s_.node.func) in ("self.add", "cls.add", "VirtualTimeScheduler.add") and len(s_.node.args) == 2:
+                n_add += 1
+                a_, b_ = (u(x) for x in s_.node.args)
+                clockish = (f"self.{CLK}", "self.now", "self.clock")
+                okab = a_ in clockish and not any(c_ in b_ for c_ in clockish)
+                if m_.name == "schedule_relative":
+                    okab = okab and m_.params[1] in b_
+                rep.ob("O3-duetime-unchanged", m_, f"{m_.name}: `{short(s_.node)}` = add(<clock>, <relative time>)", okab,
+                       f"`{short(s_.node)}` does not add the relative time to the clock in the roles add(absolute, relative) declares: add() "
+                       f"converts its second operand with to_timedelta, which fails (TypeError) or mis-converts when it is handed the clock")
+    rep.ob("O3-duetime-unchanged", vc_, f"{n_add} add(absolute, relative) calls", addf is not None and n_add >= 1,
+           "relative requests are no longer placed at clock + duetime through add()")
     sa_ = repo.fn(V, "VirtualTimeScheduler.schedule_absolute")
     item = [s for s in sites(sa_) if isinstance(s.node, (ast.Assign, ast.AnnAssign)) and isinstance(s.node.value, ast.Call) and call_name(s.node.value) == "ScheduledItem"]
     ok = False
